@@ -282,3 +282,55 @@ Definition indep (ph p : bytes) : bool :=
   | [] => false
   | h :: _ => negb (mem_byte h p) && negb (mem_byte (last ph h) p) && negb (contains p ph)
   end.
+
+(* ============================================================================================
+   Which secrets CAN be confused with placeholder text (exact form; [indep] above is the older, coarser
+   sufficient condition and is kept only to show that the new class is contained in the old one).
+   The output is made of bytes forwarded literally and of whole copies of the placeholder, so an occurrence of [p]
+   in the output that is not a literal occurrence has to share a byte with a copy of the placeholder; that is possible
+   only if  p lies inside the placeholder,  the placeholder lies inside p,  a non-empty end of p is a beginning of the
+   placeholder,  or  a non-empty end of the placeholder is a beginning of p.
+   ============================================================================================ *)
+(* some non-empty suffix of [a] is a prefix of [b] *)
+Fixpoint overlap (a b : bytes) : bool :=
+  match a with
+  | [] => false
+  | _ :: a' => is_prefix a b || overlap a' b
+  end.
+
+Definition ph_clash (ph p : bytes) : bool :=
+  contains p ph || contains ph p || overlap p ph || overlap ph p.
+
+(* no proper non-empty prefix of the placeholder is also a suffix of it: its occurrences in a text never overlap *)
+Definition border_free (ph : bytes) : bool :=
+  match ph with [] => false | _ :: t => negb (overlap t ph) end.
+
+(* ============================================================================================
+   Write calls without the final Close (what has been forwarded, what is still buffered)
+   ============================================================================================ *)
+Fixpoint write_all (ph : bytes) (pats : list bytes) (line : bytes) (chunks : list bytes) : bytes * bytes :=
+  match chunks with
+  | [] => ([], line)
+  | b :: r =>
+      let (o, l) := write ph pats line b in
+      let (o', l') := write_all ph pats l r in (o ++ o', l')
+  end.
+
+(* ============================================================================================
+   A linear-time twin of [run] for the correspondence on long lines ([write] and [lines_acc] append to the END of the
+   line buffer, which is quadratic in the line length): the line buffer is kept reversed.
+   Proofs/RedactorFast.v: run_fast = run, for all inputs.
+   ============================================================================================ *)
+Fixpoint lines_rev (cur_rev s : bytes) : list bytes * bytes :=
+  match s with
+  | [] => ([], rev_append cur_rev [])
+  | c :: t =>
+      if is_nl c
+      then let (ls, r) := lines_rev [] t in (rev_append cur_rev [c] :: ls, r)
+      else lines_rev (c :: cur_rev) t
+  end.
+
+Definition run_fast (P : rparams) (secrets : list bytes) (chunks : list bytes) : bytes :=
+  let pats := new_replacer P secrets in
+  let (ls, r) := lines_rev [] (concat chunks) in
+  concat (map (redact (rp_placeholder P) pats) ls) ++ redact (rp_placeholder P) pats r.
